@@ -1025,3 +1025,11 @@ pub fn verif_control_len(transmit: &Transmit<'_>, sendmsg_einval: bool) -> (usiz
 pub fn verif_cmsg_consts(payload: usize) -> (usize, usize) {
     (cmsg::LEN, unsafe { libc::CMSG_SPACE(payload as _) } as usize)
 }
+
+/// Verification hook: whether the `sendmsg_einval` fallback (IP_TOS omitted on IPv4) is active
+#[cfg(feature = "quinn_rs_quinn_verif")]
+impl UdpSocketState {
+    pub fn verif_sendmsg_einval(&self) -> bool {
+        self.sendmsg_einval()
+    }
+}
